@@ -114,7 +114,7 @@ import scipp as sc
 import scipp.constants
 from scipp.typing import VariableLike
 
-from .._utils import elem_dtype, elem_unit
+from .._utils import elem_dtype, elem_unit, float_dtype
 
 
 def L1(*, incident_beam: VariableLike) -> VariableLike:
@@ -412,15 +412,17 @@ def _drop_due_to_gravity(
 
     See the documentation of :func:`scattering_angles_with_gravity`.
     """
-    distance = distance.to(dtype=elem_dtype(wavelength), copy=False)
+    distance = distance.to(dtype=float_dtype(wavelength), copy=False)
     const = (sc.norm(gravity) * (sc.constants.m_n**2 / (2 * sc.constants.h**2))).to(
-        dtype=elem_dtype(wavelength), copy=False
+        dtype=float_dtype(wavelength), copy=False
     )
 
     # Convert unit to eventually match the unit of y.
     # Copy to make it safe to use in-place ops.
     drop = wavelength.to(
-        unit=sc.sqrt(sc.reciprocal(elem_unit(distance) * elem_unit(const))), copy=True
+        unit=sc.sqrt(sc.reciprocal(elem_unit(distance) * elem_unit(const))),
+        dtype=float_dtype(wavelength),
+        copy=True,
     )
     drop *= drop
     drop *= const
@@ -577,7 +579,7 @@ def _scattering_angles_with_gravity_generic(
         distance=sc.norm(scattered_beam), wavelength=wavelength, gravity=gravity
     )
     y = drop_distance + sc.dot(scattered_beam, ey).to(
-        dtype=elem_dtype(wavelength), copy=False
+        dtype=float_dtype(wavelength), copy=False
     )
     x = sc.dot(scattered_beam, ex).to(dtype=elem_dtype(y), copy=False)
     phi = sc.atan2(y=y, x=x, out=y)
@@ -586,7 +588,7 @@ def _scattering_angles_with_gravity_generic(
     drop += scattered_beam
     return {
         'two_theta': two_theta(incident_beam=incident_beam, scattered_beam=drop).to(
-            dtype=elem_dtype(wavelength), copy=False
+            dtype=float_dtype(wavelength), copy=False
         ),
         'phi': phi,
     }
@@ -610,7 +612,7 @@ def _scattering_angles_with_gravity_orthogonal_coords(
     y = _drop_due_to_gravity(
         distance=sc.norm(scattered_beam), wavelength=wavelength, gravity=gravity
     )
-    y += sc.dot(scattered_beam, ey).to(dtype=elem_dtype(wavelength), copy=False)
+    y += sc.dot(scattered_beam, ey).to(dtype=float_dtype(wavelength), copy=False)
 
     x = sc.dot(scattered_beam, ex).to(dtype=elem_dtype(y), copy=False)
     phi = sc.atan2(y=y, x=x)
@@ -711,7 +713,7 @@ def scattering_angle_in_yz_plane(
     y = _drop_due_to_gravity(
         distance=sc.norm(scattered_beam), wavelength=wavelength, gravity=gravity
     )
-    y += sc.dot(scattered_beam, ey).to(dtype=elem_dtype(wavelength), copy=False)
+    y += sc.dot(scattered_beam, ey).to(dtype=float_dtype(wavelength), copy=False)
     y = sc.abs(y, out=y)
     z = sc.dot(scattered_beam, ez).to(dtype=elem_dtype(y), copy=False)
     return sc.atan2(y=y, x=z, out=y)
